@@ -1,7 +1,9 @@
 """C12 — path-variable commands obey list algebra.
 
-Implementation: eups.table.Action(...).execute(Eups, 1, fwd) for envPrepend / envAppend / envSet / envUnset.
-Model: lean/EupsModel/Model/PathAlg.lean through the driver op "path".
+Implementation: eups.table.Action(...).execute(Eups, 1, fwd) for envPrepend / envAppend / envSet / envUnset / addAlias, on
+actions constructed directly or read from a real table file through Product.getTable(...).actions(flavor), after
+Table.expandEupsVariables.
+Model: lean/EupsModel/Model/PathAlg.lean + Model/PathAct.lean through the driver op "path".
 Oracle (ii): the list laws of the property evaluated on the implementation's own output, from the
 generator's *structured* description of the case (no use of the model)."""
 import contextlib
@@ -18,11 +20,16 @@ RULE = ("cases = (prior environment, sequence of 1-6 envPrepend/envAppend/envSet
         "${PRODUCTS} ${<NAME>_DIR} ${PRODUCT_FLAVOR/NAME/VERSION} ${UPS_DIR} over products with/without directory, flavor, "
         "extra directory) and delimiters (: ; , space | - :: . + * ?); a third of the cases carry a product (macros are "
         "expanded by Table.expandEupsVariables; half of those are read from a real table file through Product.getTable), "
-        "a third run with --force over a generated oldEnviron/oldAliases; a case is "
+        "a third run with --force over a generated oldEnviron/oldAliases; plus an exhaustive small family (prior lists over "
+        "{a,b,x,empty} up to length 3 x 4 values x prepend/append x direction x flags) and an end-to-end family (a product "
+        "directory whose table of 1-5 path/set lines is set up with eups.app.setup — setup -r dir, or declared and set up by name — and unset again, each by a "
+        "fresh Eups, compared with the model of the table's lines run forward and backward); a case is "
         "non-trivial when at least one action changes the variable or is refused; distinct = distinct case digests")
 TRUSTED = ["CPython `re`, `str.split/join` on the patterns used by execute_envPrepend (exercised, not verified)",
            "values free of backslashes and newlines (re.sub template processing and `$` before a trailing newline are not modelled)"]
-ASSUMPTIONS = ["delimiters are non-empty literal strings",
+ASSUMPTIONS = ["product names, versions, flavors and directories are ASCII and free of backslashes (they pass through re.sub as replacement templates in Table.expandEupsVariables); subscripts of ${EUPS_PATH[n]} are ASCII digits",
+               "table lines of the file route carry plainly quoted arguments (the parser itself is C11's)",
+               "delimiters are non-empty literal strings",
                "the oracle's notion of 'element' is: pieces of the value split at the literal delimiter, empties dropped"]
 
 MIRRORS = [("python/eups/table.py", "Action.execute_envPrepend"), ("python/eups/table.py", "Action.execute_envSet"),
@@ -31,7 +38,10 @@ MIRRORS = [("python/eups/table.py", "Action.execute_envPrepend"), ("python/eups/
            ("python/eups/Eups.py", "Eups.unsetEnv"), ("python/eups/table.py", "Action.execute_addAlias"),
            ("python/eups/table.py", "Table.expandEupsVariables"), ("python/eups/Eups.py", "Eups.setAlias"),
            ("python/eups/Eups.py", "Eups.unsetAlias"), ("python/eups/Product.py", "Product.stackRoot"),
-           ("python/eups/Product.py", "Product.extraProductDir"), ("python/eups/utils.py", "dirEnvNameFor")]
+           ("python/eups/Product.py", "Product.extraProductDir"), ("python/eups/utils.py", "dirEnvNameFor"),
+           ("python/eups/Product.py", "Product.getTable"),
+           ("python/eups/table.py", "Table._rewrite"), ("python/eups/table.py", "Table._read"),   # synonyms, envUnset rule
+           ("python/eups/table.py", "Action.execute")]      # the end-to-end family also runs Eups.setup / eups.app.setup (C01/C02's mirrors)
 
 DELIMS = [":", ":", ":", ":", ";", ",", " ", "|", "-", "::", ".", "+", "*", "?"]
 ATOMS = ["a", "b", "/x/y", "q", "c d", "/opt/p/1.0/bin", "zz", "$FOO/../lib", "$BAR"]   # brace-less $NAME is NOT a reference for eups
@@ -43,13 +53,13 @@ VARS = ["V", "W"]
 LEGACY = {"${UPS_PROD_DIR}": "${PRODUCT_DIR}", "${UPS_DB}": "${PRODUCTS}", "${UPS_UPS_DIR}": "${UPS_DIR}",
           "${UPS_PROD_FLAVOR}": "${PRODUCT_FLAVOR}"}
 EPREFS = ["${EUPS_PATH[0]}", "${EUPS_PATH[1]}", "${EUPS_PATH[7]}", "${EUPS_PATH[01]}"]
-MACROS = list(LEGACY) + EPREFS + ["${PRODUCT_DIR}", "$?{PRODUCT_DIR}", "${PRODUCT_DIR_EXTRA}", "$?{PRODUCT_DIR_EXTRA}", "${PRODUCTS}", "${NAME_DIR}",
+MACROS = list(LEGACY) + EPREFS + ["${OTHER_DIR}"] + ["${PRODUCT_DIR}", "$?{PRODUCT_DIR}", "${PRODUCT_DIR_EXTRA}", "$?{PRODUCT_DIR_EXTRA}", "${PRODUCTS}", "${NAME_DIR}",
           "${PRODUCT_FLAVOR}", "${PRODUCT_NAME}", "${PRODUCT_VERSION}", "${UPS_DIR}"]
 
 
 def gen_product(rng):
     """A structured description of the product whose table the actions come from (resolved to real paths at run time)."""
-    return {"name": rng.choice(["prod", "prod", "my-p", "P2x"]), "version": rng.choice(["1.0", "1.0", "v2_3"]),
+    return {"name": rng.choice(["prod", "prod", "my-p", "P2x", "a.b", "c++"]), "version": rng.choice(["1.0", "1.0", "v2_3"]),
             "flavor": rng.choice(["Linux64", "Linux64", "Linux64", None]),
             "dir": rng.choice(["/opt/p/1.0", "/opt/p/1.0", "/opt/p/1.0", "none", None, "$S/local dir"]),
             "db": rng.choice(["stack", "stack", "flat"]),
@@ -57,7 +67,12 @@ def gen_product(rng):
             "eups_path": rng.choice([["$S/st", "/other/stack"], ["$S/st", "/other/stack"], ["/one"], None])}
 
 
+OTHER = {"a.b": "${AXB_DIR}", "c++": "${C_DIR}"}      # the directory variable of *another* product (axb, c)
+
+
 def macro_text(prod, m):
+    if m == "${OTHER_DIR}":
+        return OTHER.get(prod["name"], "${OTHER_DIR}")
     return "${%s_DIR}" % prod["name"].upper() if m == "${NAME_DIR}" else m
 
 
@@ -93,10 +108,15 @@ def gen_value(rng, delim, env, prod=None):
         den = ("elems", [text])
     elif kind < 0.70:      # defined reference
         key = rng.choice(["FOO", "BAR"])
-        form = rng.choice(["${%s}", "$?{%s}", "${%s-dflt}"]) % key
+        form = rng.choice(["${%s}", "$?{%s}", "${%s-dflt}", "$?{%s-dflt}"]) % key
         tail = rng.choice(["/bin", "", "/lib"])
         if key in env:
-            den = ("elems", [interp1(env, env[key] + tail)])
+            val = interp1(env, env[key] + tail)
+            pieces = val.split(delim)
+            if len(pieces) > 1 and all(pieces) and len(set(pieces)) == len(pieces):
+                den = ("multi", pieces)         # the variable's value is itself a list: its elements, in order
+            else:
+                den = ("elems", [val])
         elif "-dflt" in form:
             den = ("elems", ["dflt" + tail])
         elif form.startswith("$?"):
@@ -115,6 +135,9 @@ def gen_value(rng, delim, env, prod=None):
     elif kind < 0.90:      # multi-element value
         a, b = rng.sample(atoms, 2)
         text, den = a + delim + b, ("multi", [a, b])
+    elif kind < 0.92:
+        text, den = rng.choice([delim, delim + delim, ""]), ("unspecified",)      # nothing but delimiters
+        return text, {"den": den, "pre": False, "app": False}
     else:
         text, den = rng.choice(atoms + ["x" + delim.strip() + "y" if delim.strip() else "xy"]), None
         den = ("elems", [text]) if delim not in text else ("unspecified",)
@@ -148,7 +171,8 @@ def gen_case(rng):
     env = {}
     if rng.random() < 0.7:
         r = rng.random()
-        env["FOO"] = "/foo" if r < 0.7 else ("" if r < 0.85 else "${BAR}/n")   # defined-but-empty is still defined; nested reference
+        # defined-but-empty is still defined; nested reference; a value that is itself a list
+        env["FOO"] = "/foo" if r < 0.6 else ("" if r < 0.75 else ("${BAR}/n" if r < 0.88 else "/p1" + delim + "/p2"))
     if rng.random() < 0.4:
         env["BAR"] = "bar" if rng.random() < 0.8 else ""
     prod = gen_product(rng) if rng.random() < 0.35 else None
@@ -251,17 +275,22 @@ def _arg(s):
 
 
 def table_text(case):
+    """The actions as table lines; every command is written under one of the names Table._read accepts for it (chosen by
+    the position of the line, so that the text is a function of the case)."""
+    names = {"append": ["envAppend", "pathAppend", "ENVAPPEND"], "prepend": ["envPrepend", "pathPrepend", "EnvPrepend"],
+             "set": ["envSet", "pathSet", "setenv"], "unset": ["envUnset", "pathRemove", "unsetenv"], "alias": ["addAlias", "addalias"]}
     lines = []
-    for a in case["acts"]:
+    for i, a in enumerate(case["acts"]):
+        cmd = names[a["op"]][(i + len(a["var"]) + len(a["value"])) % len(names[a["op"]])]
         if a["op"] in ("prepend", "append"):
             args = [a["var"], a["value"]] + ([a["delim"]] if a["delim"] != ":" else [])
-            lines.append("%s(%s)" % ("envAppend" if a["op"] == "append" else "envPrepend", ", ".join(_arg(x) for x in args)))
         elif a["op"] == "set":
-            lines.append("envSet(%s, %s)" % (_arg(a["var"]), _arg(a["value"])))
+            args = [a["var"], a["value"]]
         elif a["op"] == "alias":
-            lines.append("addAlias(%s, %s)" % (_arg(a["var"]), ", ".join(_arg(w) for w in a["words"])))
+            args = [a["var"]] + list(a["words"])
         else:
-            lines.append("envUnset(%s)" % _arg(a["var"]))
+            args = [a["var"]]
+        lines.append("%s(%s)%s" % (cmd, ", ".join(_arg(x) for x in args), ";" if i % 3 == 2 else ""))
     return "\n".join(lines) + "\n"
 
 
@@ -370,7 +399,7 @@ def run_impl(case):
 def _run_impl(case, e):
     prod = case.get("product")
     clean = ["V", "W", "FOO", "BAR", "PRODUCT_DIR", "PRODUCT_DIR_EXTRA", "PRODUCTS", "UPS_DIR", "PRODUCT_FLAVOR",
-             "PRODUCT_NAME", "PRODUCT_VERSION"] + [n.upper() + "_DIR" for n in ("prod", "my-p", "P2x")]
+             "PRODUCT_NAME", "PRODUCT_VERSION"] + [n.upper() + "_DIR" for n in ("prod", "my-p", "P2x", "a.b", "c++", "axb", "c", "other")]
     for k in clean:
         os.environ.pop(k, None)
     os.environ.update(case["env"])
@@ -473,6 +502,8 @@ def resolve_den(den, info, case, delim):
         return ("unspecified",)
     m, tail = den[1], den[2]
     opt, key = m.startswith("$?"), m.strip("$?{}")
+    if m == "${OTHER_DIR}":     # another product's directory variable: not this table's business, and not defined here
+        return ("error",)
     if m in EPREFS:         # a subscripted reference to $EUPS_PATH: that element; refused when EUPS_PATH is not set
         if info["eupsPath"] is None:
             return ("error",)
@@ -636,7 +667,218 @@ def corpus_cases():
     return out
 
 
+
+# ---- end to end: a table set up and unset through eups.app.setup (setup -r <dir>) -----------------------------------
+
+E2E_ATOMS = ["a", "b", "/x/y", "q", "c d", "/opt/p/1.0/bin", "zz"]
+E2E_TAILS = ["/bin", "/lib", "/share/man", ""]
+
+
+def gen_e2e(rng):
+    """A product directory with a table of 1-5 envPrepend/envAppend/envSet lines over V (path) and W (path or set), a
+    prior environment; the table is set up with `setup -r dir` and then unset, each by a fresh Eups."""
+    delim = rng.choice([":", ":", ":", ";", "::", "|"])
+    atoms = [a for a in E2E_ATOMS if delim not in a]
+    env = {"FOO": "/foo"} if rng.random() < 0.6 else {}
+    w_is_set = rng.random() < 0.4
+    lines = []
+    for _ in range(rng.randint(1, 5)):
+        r = rng.random()
+        if r < 0.1 and len(atoms) > 2:
+            a, b = rng.sample(atoms, 2)
+            text, val = a + delim + b, ("multi", a, b)      # a value that is itself a list: its elements, in order
+        elif r < 0.45:
+            text, val = rng.choice(atoms), None
+            val = text
+        elif r < 0.8:
+            tail = rng.choice(E2E_TAILS)
+            text, val = "${PRODUCT_DIR}" + tail, ("dir", tail)
+        elif r < 0.9 and "FOO" in env:
+            text, val = "${FOO}/e", "/foo/e"
+        else:
+            text, val = "${UPS_DIR}/x", ("ups", "/x")
+        if w_is_set and rng.random() < 0.3:
+            lines.append({"op": "set", "var": "W", "value": text, "val": val, "delim": delim})
+        else:
+            var = "V" if (w_is_set or rng.random() < 0.7) else "W"
+            lines.append({"op": rng.choice(["prepend", "append"]), "var": var, "value": text, "val": val, "delim": delim})
+    for v in VARS:
+        r = rng.random()
+        if r < 0.2:
+            continue
+        pool = atoms + ["", "${X}/kept"] + [l["value"] for l in lines if isinstance(l["val"], str) and l["op"] != "set"]
+        env[v] = delim.join(rng.choice(pool) for _ in range(rng.randint(0, 5)))
+    return {"kind": "e2e", "env": env, "lines": lines, "delim": delim, "dirname": rng.choice(["prd", "loc dir", "p-1.0"]),
+            "route": rng.choice(["local", "declared"])}
+
+
+def run_e2e(case):
+    """In a forked child: setup -r <dir> with one Eups, unsetup with another; the variables after each."""
+    def body():
+        common.import_eups()
+        root = common.scratch("c12e")
+        try:
+            stacks, _ = common.mkstacks(root)
+            d = os.path.join(root, case["dirname"], "prd")
+            os.makedirs(os.path.join(d, "ups"))
+            acts = [dict(l, fwd=True, words=[]) for l in case["lines"]]
+            with open(os.path.join(d, "ups", "prd.table"), "w") as f:
+                f.write(table_text({"acts": acts}))
+            declared = case.get("route") == "declared"
+            for k in ("V", "W", "FOO", "X", "PRD_DIR", "SETUP_PRD"):
+                os.environ.pop(k, None)
+            os.environ.update(case["env"])
+            M, app = common.eups_mod("Eups"), common.eups_mod("app")
+            U = common.eups_mod("utils")
+            U.stderr = U.stdwarn = U.stdinfo = U.stdok = io.StringIO()
+            out = {"dir": d, "eupsPath": os.environ.get("EUPS_PATH"), "root": stacks[0] if declared else None}
+            with contextlib.redirect_stderr(io.StringIO()), contextlib.redirect_stdout(io.StringIO()):
+                try:
+                    if declared:        # a declared version, set up by name: the main loop of Eups.setup runs the table
+                        E0 = M.Eups(quiet=1)
+                        E0.declare("prd", "1.0", productDir=d)
+                        out["flavor"] = E0.flavor
+                        cmds = app.setup("prd", "1.0", eupsenv=M.Eups(quiet=1))
+                    else:               # setup -r dir: the localProduct loop runs it
+                        cmds = app.setup("prd", productRoot=d, eupsenv=M.Eups(quiet=1))
+                    out["setup"] = "false" if "false" in cmds else {v: os.environ.get(v) for v in VARS}
+                    out["setup_dir"] = os.environ.get("PRD_DIR")
+                    cmds = app.setup("prd", eupsenv=M.Eups(quiet=1), fwd=False)
+                    out["unsetup"] = "false" if "false" in cmds else {v: os.environ.get(v) for v in VARS}
+                    out["unsetup_dir"] = os.environ.get("PRD_DIR")
+                except Exception as ex:  # noqa
+                    out["exc"] = type(ex).__name__ + ":" + str(ex)[:100]
+            return out
+        finally:
+            common.rmtree(root)
+    r = common.in_child(body)
+    return r[1] if r[0] == "ok" else {"exc": "child:" + str(r[1:3])}
+
+
+def run_e2e_chunk(cases):
+    return [run_e2e(c) for c in cases]
+
+
+def e2e_requests(case, out):
+    """Model: the table's lines as Product.getTable hands them out (fromFile), run forward, then forward + backward."""
+    d = out["dir"]
+    acts = [{"op": l["op"], "fwd": True, "var": l["var"], "value": l["value"], "delim": l["delim"]} for l in case["lines"]]
+    base = {"m": "path", "env": dict(case["env"], EUPS_PATH=out["eupsPath"]), "fromfile": True, "eupspath": out["eupsPath"],
+            "product": {"root": out.get("root"), "dir": d, "extraDir": "", "extraExists": False, "name": "prd",
+                        "flavor": out.get("flavor"), "version": "1.0" if out.get("root") else None,
+                        "upsDir": os.path.join(d, "ups")}}
+    return [dict(base, acts=acts), dict(base, acts=acts + [dict(a, fwd=False) for a in acts])]
+
+
+def e2e_oracle(case, out):
+    """The property for a whole table, from the generator's description: after setup every prepended value stands in
+    front (the latest first), every appended one at the end (the latest last), the other elements keep the order of their
+    first occurrences; after unsetup exactly the table's values are gone; envSet sets / removes the variable."""
+    if "exc" in out:
+        yield ("no_crash", None, out["exc"])
+        return
+    d, delim = out["dir"], case["delim"]
+
+    def vals(l):
+        v = l["val"]
+        if not isinstance(v, str) and v[0] == "multi":
+            return list(v[1:])
+        return [v if isinstance(v, str) else (d if v[0] == "dir" else os.path.join(d, "ups")) + v[1]]
+
+    def val(l):
+        return vals(l)[0]
+    if out.get("setup_dir") != d or out.get("unsetup_dir") is not None:
+        yield ("product_dir_variable", None, "PRD_DIR %r after setup, %r after unsetup" % (out.get("setup_dir"), out.get("unsetup_dir")))
+    for var in VARS:
+        ls = [l for l in case["lines"] if l["var"] == var]
+        if any(delim in x for l in ls if l["op"] != "set" for x in vals(l)):
+            continue
+        if any(len(vals(l)) > 1 for l in ls if l["op"] == "set"):
+            continue
+        old = uniq(elems(case["env"].get(var), delim))
+        sets = [l for l in ls if l["op"] == "set"]
+        if isinstance(out["setup"], str) or isinstance(out["unsetup"], str):
+            yield ("no_error", None, "setup %r unsetup %r" % (out["setup"], out["unsetup"]))
+            return
+        after, back = out["setup"][var], out["unsetup"][var]
+        if sets and len(sets) == len(ls):
+            if after != val(sets[-1]):
+                yield ("envset_exact", None, "%s is %r after setup, expected %r" % (var, after, val(sets[-1])))
+            if back is not None:
+                yield ("unsetup_removes_variable", None, "%s is %r after unsetup" % (var, back))
+            continue
+        if sets:
+            continue            # envSet mixed with path commands on one variable: not specified as a whole
+        l_ = list(old)
+        for l in ls:
+            l_ = [x for x in l_ if x not in vals(l)]
+            l_ = vals(l) + l_ if l["op"] == "prepend" else l_ + vals(l)
+        if ls and elems(after, delim) != l_:
+            yield ("table_setup_order", None, "%s: %r, expected %r" % (var, elems(after, delim), l_))
+        if not ls and after != case["env"].get(var):
+            yield ("other_variable_untouched", None, "%s changed by setup: %r" % (var, after))
+        allvals = [x for l in ls for x in vals(l)]
+        want = [x for x in old if x not in allvals]
+        if ls and elems(back, delim) != want:
+            yield ("table_unsetup_removes_exactly", None, "%s: %r, expected %r" % (var, elems(back, delim), want))
+
+
+def evaluate_e2e(ctx, cases):
+    nw = 4
+    chunks = [cases[i::nw] for i in range(nw)]
+    res = parallel_map(run_e2e_chunk, chunks, workers=nw)
+    outs = [None] * len(cases)
+    for k, ch in enumerate(res):
+        for j, v in enumerate(ch):
+            outs[k + j * nw] = v
+    reqs = []
+    for c, o in zip(cases, outs):
+        reqs += e2e_requests(c, o) if "dir" in o else []
+    answers = iter(ctx.lean.ask_many(reqs))
+    for c, o in zip(cases, outs):
+        ctx.hist("e2e")
+        ctx.hist("e2e-lines=%d" % len(c["lines"]))
+        ctx.hist("e2e-route=%s" % c.get("route"))
+        ctx.case(key={"e2e": c["env"], "lines": c["lines"], "dirname": c["dirname"], "route": c.get("route")}, nontrivial=True, sample=None)
+        if "dir" in o:
+            a1, a2 = next(answers), next(answers)
+            mo = {"setup": ({v: a1["env"].get(v) for v in VARS} if a1["out"] == "ok" else a1["out"]),
+                  "unsetup": ({v: a2["env"].get(v) for v in VARS} if a2["out"] == "ok" else a2["out"])}
+            io_ = {"setup": o.get("setup"), "unsetup": o.get("unsetup")}
+            if "exc" in o:
+                io_ = {"exc": o["exc"]}
+            if mo != io_:
+                ctx.disagree("e2e_setup_unsetup", c, io_, mo)
+        else:
+            mo = None
+        for clause, cls, detail in e2e_oracle(c, o):
+            ctx.fail(clause, c, o, mo, note=detail, finding=cls)
+
+
 CASE_KEYS = ("env", "acts", "specs", "delim", "product", "force", "noaction", "oldenv", "aliases", "oldaliases")
+
+
+def exhaustive_cases(maxlen, delims):
+    """Every prior list over {a, b, x, empty} up to maxlen elements x value in {a, x, a<d>b, x<d>a} x prepend/append x
+    setup/unsetup x the four leading/trailing-delimiter flags: the small end of the property's quantifier, completely."""
+    import itertools
+    out = []
+    for delim in delims:
+        for n in range(maxlen + 1):
+            for old in itertools.product(["a", "b", "x", ""], repeat=n):
+                oldv = None if n == 0 else delim.join(old)
+                for vals in (["a"], ["x"], ["a", "b"], ["x", "a"]):
+                    for op in ("prepend", "append"):
+                        for fwd in (True, False):
+                            for pre, app in ((False, False), (True, False), (False, True), (True, True)):
+                                if (pre or app) and not fwd:
+                                    continue
+                                text = (delim if pre else "") + delim.join(vals) + (delim if app else "")
+                                den = ("elems", vals) if len(vals) == 1 else ("multi", vals)
+                                env = {} if oldv is None else {"V": oldv}
+                                out.append({"env": env, "acts": [{"op": op, "fwd": fwd, "var": "V", "value": text, "delim": delim}],
+                                            "specs": [{"den": den, "pre": pre, "app": app}], "delim": delim, "roundtrip": False})
+    return out
 
 
 def evaluate(ctx, cases):
@@ -681,6 +923,10 @@ def run(ctx):
     n = ctx.n(40000, 400000)
     batch = 4000
     evaluate(ctx, cases)
+    ex = exhaustive_cases(*ctx.n((3, [":"]), (4, [":", "::", "|"])))
+    ctx.hist("exhaustive", len(ex))
+    evaluate(ctx, ex)
+    evaluate_e2e(ctx, [gen_e2e(ctx.rng) for _ in range(ctx.n(240, 2400))])
     done = 0
     while done < n and not ctx.out_of_time():
         k = min(batch, n - done)
@@ -697,6 +943,12 @@ def run(ctx):
 
 def replay(ctx, rp):
     c = rp["input"]
+    if c.get("kind") == "e2e":
+        o = run_e2e(c)
+        answers = ctx.lean.ask_many(e2e_requests(c, o)) if "dir" in o else []
+        fails = [{"clause": cl, "class": k, "detail": d} for cl, k, d in e2e_oracle(c, o)]
+        mo = [a.get("env", a.get("out")) for a in answers]
+        return {"input": c, "impl_output": o, "model_output": mo, "agree": None, "fails": fails}
     c.setdefault("roundtrip", False)
     r = common.in_child(run_impl_one, c)
     if r[0] != "ok":
